@@ -1,6 +1,7 @@
 //! Running one property end to end: pinned inputs, exhaustive spaces, random phase, evidence, exit code.
 use crate::gen::Reject;
 use crate::props::{self, Spec};
+use crate::runner::Failure;
 use crate::runner::*;
 use crate::ser;
 use serde_json::{json, Value};
@@ -141,6 +142,11 @@ pub fn finish(id: &str, out: &Outcome) -> i32 {
 }
 
 pub fn run_generic(id: &str, tier: Tier) -> i32 {
+    match id {
+        "C17" => return run_c17(tier),
+        "C18" => return run_c18(tier),
+        _ => {}
+    }
     let seed = seed_from_env();
     let t0 = Instant::now();
     let spec = match props::spec(id, tier) {
@@ -170,6 +176,53 @@ pub fn replay(path: &str) -> i32 {
             return 2;
         }
     };
+    match v.get("kind").and_then(|k| k.as_str()) {
+        Some("splay-history") => {
+            let h = match v.get("history").and_then(|h| h.as_str()).and_then(crate::props::splay::history_from_text) {
+                Some(h) => h,
+                None => {
+                    eprintln!("cannot parse history in {}", path);
+                    return 2;
+                }
+            };
+            let e = crate::props::splay::eval_history(&h, false);
+            return match e.result {
+                Ok(()) => {
+                    println!("replay {}: property C17 holds on this history", path);
+                    0
+                }
+                Err(f) => {
+                    println!("VIOLATION property=C17 replay={}", path);
+                    println!("  clause: {}\n  detail: {}", f.clause, f.detail);
+                    1
+                }
+            };
+        }
+        Some("child-scenario") => {
+            let id = v.get("property").and_then(|p| p.as_str()).unwrap_or("C18").to_string();
+            let sc = v.get("scenario").and_then(|s| s.as_str()).and_then(|s| crate::props::big::Scenario::from_args(&s.split_whitespace().map(|x| x.to_string()).collect::<Vec<_>>()));
+            let sc = match sc {
+                Some(s) => s,
+                None => {
+                    eprintln!("cannot parse scenario in {}", path);
+                    return 2;
+                }
+            };
+            let (r, _) = crate::props::big::run_child(&sc, std::time::Duration::from_secs(900));
+            return match judge_scenario(&sc, &r) {
+                Ok(_) => {
+                    println!("replay {}: scenario `{}` completed: {:?}", path, sc.text(), r);
+                    if matches!(r, crate::props::big::ChildResult::Timeout) { 2 } else { 0 }
+                }
+                Err(f) => {
+                    println!("VIOLATION property={} replay={}", id, path);
+                    println!("  clause: {}\n  detail: {}", f.clause, f.detail);
+                    1
+                }
+            };
+        }
+        _ => {}
+    }
     let ids: Vec<String> = match (v.get("property").and_then(|p| p.as_str()), v.get("properties").and_then(|p| p.as_array())) {
         (Some(p), _) => vec![p.to_string()],
         (None, Some(a)) => a.iter().filter_map(|x| x.as_str().map(|s| s.to_string())).collect(),
@@ -205,6 +258,244 @@ pub fn replay(path: &str) -> i32 {
         } else {
             eprintln!("replay: property {} has no generic check", id);
         }
+    }
+    code
+}
+
+// ---------------------------------------------------------------------------------------------
+// C17
+
+pub fn run_c17(tier: Tier) -> i32 {
+    use crate::props::splay;
+    let seed = seed_from_env();
+    let t0 = Instant::now();
+    let mut stats = Stats::default();
+    let mut violations = Vec::new();
+    let rule = "(1) exhaustive: breadth-first over every splay tree reachable over the key universe {0..K-1} (K=6 quick, 7 thorough; state identity = Debug rendering), from every state every operation (insert/remove/get/find_key/next/prev/contains/get_mut, then min/max/len and the in-order keys) with every key of the universe plus one key below and one above, every consuming iteration direction pattern (full and half consumed, then dropped) and clear; (2) random histories of 1..400 operations on SplayTree<i32,Box<i32>> and SplaySet<i32> with three consistent comparators, compared step by step with BTreeMap, ending in drop / forward / backward / mixed / partial consuming iteration; held references re-read after further lookups and compared by address. Non-trivial history: contains the removal of a key with both neighbours present (node with two children at the root), a miss after lookups restructured a non-empty tree, or a mixed-direction iteration over >= 3 elements. Distinct: hash of the history.";
+    // pinned regression histories
+    for (path, v) in pinned_files("regress", "C17") {
+        if let Some(h) = v.get("history").and_then(|h| h.as_str()).and_then(splay::history_from_text) {
+            let e = splay::eval_history(&h, false);
+            stats.evaluations += 1;
+            if let Err(f) = e.result {
+                violations.push(Violation { replay: path, clause: f.clause, detail: f.detail });
+            }
+        }
+    }
+    let k = tier.pick(6, 7) as i32;
+    let ex = crate::exec::guarded(u64::MAX, || splay::explore(k));
+    let mut extra = json!({});
+    match ex {
+        Ok(ex) => {
+            stats.evaluations += ex.transitions + ex.iterations;
+            extra["exhaustive_exploration"] = json!({"key_universe": k, "states": ex.states, "transitions": ex.transitions, "consuming_iterations": ex.iterations, "max_height": ex.max_height, "complete": ex.failure.is_none(), "sample_states": ex.sample_states});
+            stats.exhaustive_parts.push(json!({"space": format!("all splay trees reachable over keys 0..{}", k), "size": ex.states, "complete": ex.failure.is_none()}));
+            // every explored state is a distinct non-trivial case of the exhaustive part
+            for i in 0..ex.states {
+                stats.nontrivial.insert(0xE000_0000_0000_0000 | i);
+            }
+            if let Some((f, path)) = ex.failure {
+                let p = write_replay_value("C17", 0xE17, json!({"kind": "splay-small-path", "path": path}), &f);
+                violations.push(Violation { replay: p, clause: f.clause, detail: f.detail });
+            }
+        }
+        Err(p) => {
+            let f = Failure::new("panic", format!("exhaustive exploration panicked at {}:{}: {}", p.file, p.line, p.message));
+            let path = write_replay_value("C17", 0xE17, json!({"kind": "splay-small-path", "path": "(panic during exploration)"}), &f);
+            violations.push(Violation { replay: path, clause: f.clause, detail: f.detail });
+        }
+    }
+    if violations.is_empty() {
+        let mk = |name: &'static str, cases: u64, max_ops: usize| Plan::<splay::History> {
+            name,
+            cases,
+            strategy: Box::new(move || splay::history_strategy(max_ops)),
+            eval: Box::new(|h: &splay::History, s: bool| splay::eval_history(h, s)),
+            replay: Box::new(|h: &splay::History, _f: &Failure| splay::history_to_json(h)),
+        };
+        let plans = vec![mk("short-histories", tier.pick(12_000, 600_000), 40), mk("long-histories", tier.pick(4_000, 200_000), 400)];
+        run_plans("C17", seed, &plans, &mut stats, &mut violations);
+    }
+    let out = Outcome { violations, known_lines: vec![], stats, extra };
+    write_evidence("C17", tier, seed, rule, &["BTreeMap of the standard library is the reference model", "comparators are consistent total orders (natural, reversed, (k mod 7, k))", "the Debug rendering of SplayTree is used to read the tree shape (in-order keys, height)"], &out, t0.elapsed().as_secs_f64(), false);
+    finish("C17", &out)
+}
+
+// ---------------------------------------------------------------------------------------------
+// C18
+
+pub fn c18_scenarios(tier: Tier, seed: u64) -> Vec<crate::props::big::Scenario> {
+    use crate::props::big::*;
+    let mut v = Vec::new();
+    // fixed backbone: every teardown/consumption action on a monotone chain, both stacks
+    let big = tier.pick(1_000_000, 3_000_000);
+    // (alternating iteration over a chain takes quadratic time in this implementation, which is not what C18 is
+    // about: its size is capped)
+    let cap = |action: usize, size: u64| if ACTIONS[action] == "iter-alternating" { size.min(20_000) } else { size };
+    for (i, _) in ACTIONS.iter().enumerate() {
+        v.push(Scenario::Splay { order: i % 2, size: cap(i, big), action: i, stack_mib: if i % 3 == 0 { 2 } else { 8 }, salt: seed });
+        v.push(Scenario::Splay { order: (i + 1) % 2, size: cap(i, big), action: i, stack_mib: if i % 3 == 0 { 8 } else { 2 }, salt: seed });
+    }
+    // generated scenarios: order x log-uniform size x action x stack from a splitmix stream of the seed
+    let mut s = seed ^ 0xC18C_18C1_8C18_C18C;
+    let mut next = move || {
+        s = s.wrapping_add(0x9e37_79b9_7f4a_7c15);
+        let mut z = s;
+        z = (z ^ (z >> 30)).wrapping_mul(0xbf58_476d_1ce4_e5b9);
+        z = (z ^ (z >> 27)).wrapping_mul(0x94d0_49bb_1331_11eb);
+        z ^ (z >> 31)
+    };
+    let n_gen = tier.pick(15, 380);
+    for _ in 0..n_gen {
+        let order = (next() % ORDERS.len() as u64) as usize;
+        let lo = 1_000f64.ln();
+        let hi = (big as f64).ln();
+        let size = (lo + (hi - lo) * (next() % 10_000) as f64 / 10_000.0).exp() as u64;
+        let action = (next() % ACTIONS.len() as u64) as usize;
+        let stack_mib = if next() % 2 == 0 { 8 } else { 2 };
+        v.push(Scenario::Splay { order, size: cap(action, size), action, stack_mib, salt: next() });
+    }
+    // Boolean operations with a heavily populated sweep line
+    let nb = tier.pick(250_000, 250_000);
+    for corner in 0..4 {
+        v.push(Scenario::Bool { shape: 0, n: nb, corner, op: 0, stack_mib: 8 });
+    }
+    v.push(Scenario::Bool { shape: 0, n: nb, corner: 0, op: 2, stack_mib: 8 });
+    v.push(Scenario::Bool { shape: 0, n: nb / 2, corner: 0, op: 0, stack_mib: 2 });
+    v.push(Scenario::Bool { shape: 0, n: nb / 2, corner: 1, op: 2, stack_mib: 2 });
+    if tier == Tier::Thorough {
+        for op in 0..4 {
+            for corner in 0..4 {
+                v.push(Scenario::Bool { shape: 0, n: 100_000, corner, op, stack_mib: 8 });
+            }
+            v.push(Scenario::Bool { shape: 1, n: 200_000, corner: op, op, stack_mib: 8 });
+            v.push(Scenario::Bool { shape: 2, n: 100_000, corner: op, op, stack_mib: 8 });
+        }
+    }
+    v
+}
+
+/// judge one child result; Ok(nontrivial) or Err(failure)
+pub fn judge_scenario(sc: &crate::props::big::Scenario, res: &crate::props::big::ChildResult) -> Result<bool, Failure> {
+    use crate::props::big::*;
+    let m = match res {
+        ChildResult::Ok(m) => m,
+        ChildResult::Died(why) => return Err(Failure::new("child-died", format!("scenario `{}`: the process did not complete: {}", sc.text(), why))),
+        ChildResult::Timeout => return Ok(false),
+    };
+    let g = |k: &str| m.get(k).cloned().unwrap_or(-1);
+    match sc {
+        Scenario::Splay { size, action, .. } => {
+            let n = *size as i64;
+            let (want_count, want_sum): (Option<i64>, Option<i64>) = match ACTIONS[*action] {
+                "drop" => (None, None),
+                "clear" => (Some(0), None),
+                "iter-forward" | "iter-backward" | "iter-alternating" => (Some(n), Some(n * (n - 1) / 2)),
+                "iter-partial-drop" => (Some(4.min(n)), if n > 4 { Some(0 + 1 + 2 + n - 1) } else { None }),
+                "lookups" => (None, Some(n)),
+                _ => (Some(n), Some(0)),
+            };
+            if g("n") != n || want_count.map(|c| c != g("count")).unwrap_or(false) || want_sum.map(|c| c != g("checksum")).unwrap_or(false) {
+                return Err(Failure::new("child-wrong-answer", format!("scenario `{}` reported {:?}, expected n={} count={:?} checksum={:?}", sc.text(), m, n, want_count, want_sum)));
+            }
+            Ok(n >= 100_000 && g("height") >= 100_000)
+        }
+        Scenario::Bool { shape, n, op, .. } => {
+            if SHAPES[*shape] == "comb" {
+                let want = match crate::exec::OPS[*op] {
+                    geo_booleanop::boolean::Operation::Intersection => Some(1),
+                    geo_booleanop::boolean::Operation::Difference => Some(*n as i64),
+                    _ => None,
+                };
+                if want.map(|w| w != g("polys")).unwrap_or(false) {
+                    return Err(Failure::new("child-wrong-answer", format!("scenario `{}` reported {:?}, expected polys={:?}", sc.text(), m, want)));
+                }
+            }
+            Ok(g("edges") >= 100_000 && g("break_len") >= 10_000)
+        }
+    }
+}
+
+pub fn run_scenarios(id: &str, scenarios: &[crate::props::big::Scenario], parallel: usize, timeout_s: u64, stats: &mut Stats, violations: &mut Vec<Violation>) -> (u64, Vec<Value>) {
+    use crate::props::big::*;
+    use std::sync::atomic::{AtomicUsize, Ordering};
+    use std::sync::Mutex;
+    let next = AtomicUsize::new(0);
+    let results: Mutex<Vec<(usize, ChildResult, f64)>> = Mutex::new(Vec::new());
+    std::thread::scope(|scope| {
+        for _ in 0..parallel {
+            scope.spawn(|| loop {
+                let i = next.fetch_add(1, Ordering::SeqCst);
+                if i >= scenarios.len() {
+                    break;
+                }
+                let (r, secs) = run_child(&scenarios[i], std::time::Duration::from_secs(timeout_s));
+                results.lock().unwrap().push((i, r, secs));
+            });
+        }
+    });
+    let mut res = results.into_inner().unwrap();
+    res.sort_by_key(|r| r.0);
+    let mut timeouts = 0;
+    let mut listing = Vec::new();
+    for (i, r, secs) in res {
+        let sc = &scenarios[i];
+        stats.evaluations += 1;
+        *stats.per_family.entry(match sc { Scenario::Splay { .. } => "splay-scenarios".to_string(), Scenario::Bool { .. } => "boolean-scenarios".to_string() }).or_default() = {
+            let e = stats.per_family.get(match sc { Scenario::Splay { .. } => "splay-scenarios", Scenario::Bool { .. } => "boolean-scenarios" }).cloned().unwrap_or((0, 0));
+            (e.0 + 1, e.1)
+        };
+        match judge_scenario(sc, &r) {
+            Ok(nt) => {
+                if matches!(r, ChildResult::Timeout) {
+                    timeouts += 1;
+                }
+                if nt {
+                    use std::hash::{Hash, Hasher};
+                    let mut h = std::collections::hash_map::DefaultHasher::new();
+                    sc.text().hash(&mut h);
+                    stats.nontrivial.insert(h.finish());
+                }
+                if let ChildResult::Ok(m) = &r {
+                    if listing.len() < 400 {
+                        listing.push(json!({"scenario": sc.text(), "nontrivial": nt, "report": m, "seconds": (secs * 100.0).round() / 100.0}));
+                    }
+                    if stats.samples.len() < 5 && nt {
+                        stats.samples.push(json!({"scenario": sc.text(), "report": m}));
+                    }
+                }
+            }
+            Err(f) => {
+                let p = write_replay_value(id, i as u64, json!({"kind": "child-scenario", "scenario": sc.text()}), &f);
+                violations.push(Violation { replay: p, clause: f.clause, detail: f.detail });
+            }
+        }
+    }
+    (timeouts, listing)
+}
+
+pub fn run_c18(tier: Tier) -> i32 {
+    let seed = seed_from_env();
+    let t0 = Instant::now();
+    let mut stats = Stats::default();
+    let mut violations = Vec::new();
+    let rule = "scenarios run in child processes of the harness binary, the work being done in a thread with an explicit 8 MiB or 2 MiB stack: (a) splay scenarios = insertion order (ascending, descending, zig-zag, organ-pipe, random) x size (log-uniform in [1e3, 1e6 quick / 3e6 thorough]) x action (drop, clear, full iteration forward/backward/alternating, partial iteration then drop, 1e4 random get/next/prev, remove all ascending/descending); a fixed backbone runs every action on a monotone chain of maximal size; (b) Boolean operations on combs/grids/nested rings with a clipping box at each corner. Oracle: the child exits 0 and reports the expected length/count/checksum (polygon count for comb intersection/difference). Non-trivial: splay scenario with size >= 1e5 whose measured tree height (iterative probe behind the verif-hooks feature) is >= 1e5; Boolean scenario with >= 1e5 edges and >= 1e4 segments in the sweep line when the sweep stopped early.";
+    let scenarios = c18_scenarios(tier, seed);
+    // pinned regression scenarios
+    let mut all = Vec::new();
+    for (_, v) in pinned_files("regress", "C18") {
+        if let Some(sc) = v.get("scenario").and_then(|s| s.as_str()).and_then(|s| crate::props::big::Scenario::from_args(&s.split_whitespace().map(|x| x.to_string()).collect::<Vec<_>>())) {
+            all.push(sc);
+        }
+    }
+    all.extend(scenarios);
+    let (timeouts, listing) = run_scenarios("C18", &all, 8, 600, &mut stats, &mut violations);
+    let out = Outcome { violations, known_lines: vec![], stats, extra: json!({"scenarios": listing, "watchdog_timeouts": timeouts}) };
+    write_evidence("C18", tier, seed, rule, &["stack sizes are set explicitly on the worker thread of the child (8 MiB = the default main-thread limit, 2 MiB = the default for spawned threads)", "a watchdog expiry (600 s) is inconclusive, not a violation"], &out, t0.elapsed().as_secs_f64(), false);
+    let code = finish("C18", &out);
+    if code == 0 && timeouts > 0 {
+        println!("INCONCLUSIVE: {} scenarios hit the watchdog", timeouts);
+        return 2;
     }
     code
 }
